@@ -22,6 +22,7 @@ LEVEL = 'exploration'
 
 BLOCK = ('xor', 'or', 'maj', 'eq', 'neq', 'eq_invert', 'one')
 THRESH = ('exact', 'atleast', 'atmost', 'anybut')
+OPNAME = {'<': 'lt', '>': 'gt', '<=': 'le', '>=': 'ge', '==': 'eq', '!=': 'ne'}
 
 
 # ------------------------------------------------------------------ running one transformation
@@ -216,7 +217,7 @@ def vkey(spec, kind):
     """coarse violation key: transformation [operator] : what fails"""
     t = spec['t']
     if t == 'linear':
-        t = 'linear[{}]'.format(spec['op'])
+        t = 'linear[{}]'.format(OPNAME[spec['op']])
     return '{}:{}'.format(t, kind)
 
 
